@@ -26,6 +26,7 @@ func init() {
 		"go.readbits":  goReadBits,
 		"go.obtained":  goObtained,
 		"go.boc":       goBoc,
+		"go.nopanic":   goNoPanic,
 		"go.testfiles": func(a []string) string { return "FAIL no-testdata-bocs-found" },
 	})})
 }
@@ -108,6 +109,20 @@ func specCompare(t []h.Row, cs []*boc.Cell, what string) string {
 			}
 		}
 	}
+	return "ok"
+}
+
+// go.nopanic <table>: hashing any cell of any table with 3-bit masks returns a value or an error, never panics
+// (runLine turns a panic into the answer "panic", which is a failure for a go. line).
+func goNoPanic(a []string) string {
+	t := h.ParseTable(a[0])
+	cs := h.BuildCells(t)
+	for _, c := range cs {
+		c.Hash()
+		boc.VerifHashLevels(c)
+	}
+	hasher := boc.NewHasher()
+	hasher.Hash(cs[0])
 	return "ok"
 }
 
@@ -524,6 +539,29 @@ func genC02(g *h.G) {
 			t := append([]h.Row{{Ty: 3, Mask: 0, BitLen: len(mp) * 8, Data: mp, Refs: []int{1}}}, shift(ch, 1)...)
 			emitTable(g, t, "class_chain_pruned_merkle")
 		}
+	}
+	// malformed stream: any type byte 0..7, any 3-bit mask, any data length, masks unrelated to the children —
+	// outside WFExotic; hashing must still not panic (no_panic_any) and model = code exactly
+	for i := 0; i < g.Scale(600, 12000); i++ {
+		t := g.RandOrdinaryTable(h.DagOpts{MaxCells: g.Pick(1, 2, 4, 8)})
+		for j := range t {
+			if g.Rng.Intn(2) == 0 {
+				t[j].Ty = g.Rng.Intn(8)
+				t[j].Mask = g.Rng.Intn(8)
+				if g.Rng.Intn(2) == 0 {
+					bl := g.Pick(0, 8, 16, 24, 16+272, 16+272-8, 16+544, 16+816, 16+816-1, 264, 280, 552, 1023)
+					t[j].BitLen, t[j].Data = bl, g.RandData(bl)
+					if bl >= 16 && g.Rng.Intn(2) == 0 {
+						t[j].Data[0], t[j].Data[1] = byte(t[j].Ty), byte(t[j].Mask)
+					}
+				}
+			}
+		}
+		ts := h.TableString(t)
+		g.Count("class_malformed")
+		g.Emit("cell.levels", ts)
+		g.Emit("cell.all", ts)
+		g.Emit("go.nopanic", ts)
 	}
 	// NewCellWithBits(ReadBits n)
 	nrb := g.Scale(600, 6000)
